@@ -406,6 +406,7 @@ def eval_rules(mods: dict[str, tuple[object, ast.AST]], all_mods: list[tuple[obj
             yield ("ob", "C37.R3", f"probe-service:{qualname_of(fn).split('.')[-1]}", "an AuthService built for probing never moves the profile pointer and never escapes", ok, m, c, fn, reason, [])
     yield ("floor", "C37.R3", "AuthService constructions", n_ctor)
     n_callers = 0
+    seen_inst: dict = {}
     for m, tree in all_mods:
         for c in ast.walk(tree):
             if isinstance(c, ast.Call) and isinstance(c.func, ast.Attribute) and c.func.attr in movers:
@@ -421,7 +422,10 @@ def eval_rules(mods: dict[str, tuple[object, ast.AST]], all_mods: list[tuple[obj
                 kind, det = receiver_origin(c, fn, tree)
                 if kind == "unknown":
                     raise AnchorError(f"C37.R3: cannot tell where the receiver `{det}` of `{c.func.attr}` at {getattr(m, 'rel', '?')}:{c.lineno} comes from")
-                yield ("ob", "C37.R3", f"mover-caller:{c.func.attr}", "a pointer-moving AuthService method is called on a service obtained from current_auth_service()",
+                ikey = (id(fn), c.func.attr)
+                seen_inst[ikey] = seen_inst.get(ikey, 0) + 1
+                inst = f"mover-caller:{c.func.attr}" + (f"#{seen_inst[ikey]}" if seen_inst[ikey] > 1 else "")
+                yield ("ob", "C37.R3", inst, "a pointer-moving AuthService method is called on a service obtained from current_auth_service()",
                        kind in ("current", "param-unused"), m, c, fn, f"receiver is {kind} ({det})", [])
     yield ("floor", "C37.R3", "callers of pointer-moving AuthService methods", n_callers)
 
@@ -561,4 +565,40 @@ def run(chk) -> None:
 _C = "packages/llamactl/src/llama_agents/cli/config/_config.py"
 _E = "packages/llamactl/src/llama_agents/cli/config/env_service.py"
 _A = "packages/llamactl/src/llama_agents/cli/config/auth_service.py"
-TWINS: list[Twin] = []
+_SW = '        self.config_manager().set_settings_current_environment(api_url)\n        self.config_manager().set_settings_current_profile(None)\n        return env'
+_CU = '        self.config_manager().set_settings_current_environment(env.api_url)\n        self.config_manager().set_settings_current_profile(None)\n'
+_SEL = '                "SELECT id, name, api_url, project_id, api_key, api_key_id, device_oidc FROM profiles WHERE name = ? AND api_url = ?",\n                (name, env_url),'
+_GCP = '        if current_name:\n            return self.get_profile(current_name, env_url)\n        return None'
+_CHK = "        if not env:\n            raise ValueError(\n                f\"Environment '{api_url}' not found. Add it with 'llamactl auth env add <API_URL>'\"\n            )\n"
+TWINS: list[Twin] = [
+    # ---- R1 breaking
+    Twin("switch keeps the profile pointer", _E, _SW, '        self.config_manager().set_settings_current_environment(api_url)\n        return env', "C37.R1"),
+    Twin("clear only for authenticated environments", _E, _CU, '        self.config_manager().set_settings_current_environment(env.api_url)\n        if env.requires_auth:\n            self.config_manager().set_settings_current_profile(None)\n', "C37.R1"),
+    Twin("extra environment writer in AuthService", _A, "        profiles = self.list_profiles()\n        if profiles:", "        self.config_manager.set_settings_current_environment(self.env.api_url)\n        profiles = self.list_profiles()\n        if profiles:", "C37.R1"),
+    Twin("destroy-style reset writes the url inline in a new method", _C, "    def get_environment(self, api_url: str) -> Environment | None:", "    def reset_environment(self) -> None:\n        with sqlite3.connect(self.db_path) as conn:\n            conn.execute(\"UPDATE settings SET value = ? WHERE key = 'current_environment_api_url'\", (DEFAULT_ENVIRONMENT.api_url,))\n            conn.commit()\n\n    def get_environment(self, api_url: str) -> Environment | None:", "C37.R1"),
+    # ---- R1 benign
+    Twin("benign: clear before switching", _E, _SW, '        self.config_manager().set_settings_current_profile(None)\n        self.config_manager().set_settings_current_environment(api_url)\n        return env', None),
+    Twin("benign: manager in a local", _E, _CU, '        cm = self.config_manager()\n        cm.set_settings_current_environment(env.api_url)\n        cm.set_settings_current_profile(name=None)\n', None),
+    Twin("benign: repaired delete_environment", _C, "                    (DEFAULT_ENVIRONMENT.api_url,),\n                )\n", "                    (DEFAULT_ENVIRONMENT.api_url,),\n                )\n                conn.execute(\"DELETE FROM settings WHERE key = 'current_profile'\")\n", None),
+    # ---- R2 breaking
+    Twin("lookup by name across environments", _C, _SEL, _SEL.replace(" AND api_url = ?", "").replace("(name, env_url)", "(name,)"), "C37.R2"),
+    Twin("lookup parameters swapped", _C, _SEL, _SEL.replace("(name, env_url)", "(env_url, name)"), "C37.R2"),
+    Twin("service asks with the current environment instead of its own", _A, "return self.config_manager.get_current_profile(self.env.api_url)", "return self.config_manager.get_current_profile(self.config_manager.get_current_environment().api_url)", "C37.R2"),
+    Twin("manager falls back to lookup by id-less name", _C, _GCP, '        if current_name:\n            return self.get_profile(current_name, env_url) or self.get_profile_by_api_key(env_url, current_name)\n        return None', "C37.R2"),
+    # ---- R2 benign
+    Twin("benign: where clause reordered", _C, _SEL, _SEL.replace("WHERE name = ? AND api_url = ?", "WHERE api_url = ? AND name = ?").replace("(name, env_url)", "(env_url, name)"), None),
+    Twin("benign: early return", _C, _GCP, '        if not current_name:\n            return None\n        return self.get_profile(current_name, env_url)', None),
+    Twin("benign: keyword argument", _A, "return self.config_manager.get_current_profile(self.env.api_url)", "return self.config_manager.get_current_profile(env_url=self.env.api_url)", None),
+    # ---- R3
+    Twin("probe service selects a profile", _E, "        svc = AuthService(self.config_manager(), env)\n        version = svc.fetch_server_version()", "        svc = AuthService(self.config_manager(), env)\n        svc.select_any_profile()\n        version = svc.fetch_server_version()", "C37.R3"),
+    Twin("probe service escapes", _E, "        base_env.capabilities = list(version.capabilities)\n        return base_env", "        base_env.capabilities = list(version.capabilities)\n        self._last_probe = svc\n        return base_env", "C37.R3"),
+    Twin("pointer written outside AuthService", _C, "            conn.commit()\n            return cursor.rowcount > 0\n\n    def update_profile", "            conn.commit()\n            if cursor.rowcount > 0:\n                self.set_settings_current_profile(profile_name)\n            return cursor.rowcount > 0\n\n    def update_profile", "C37.R3"),
+    Twin("benign: probe local renamed", _E, "        svc = AuthService(self.config_manager(), base_env)\n        version = svc.fetch_server_version()", "        probe = AuthService(self.config_manager(), base_env)\n        version = probe.fetch_server_version()", None),
+    Twin("benign: current env in a local", _E, "        return AuthService(self.config_manager(), self.get_current_environment())", "        env = self.get_current_environment()\n        return AuthService(self.config_manager(), env)", None),
+    # ---- R4
+    Twin("switch to an unknown url", _E, _CHK, "", "C37.R4"),
+    Twin("reset when it was NOT current", _C, "            if row and row[0] == api_url:", "            if row and row[0] != api_url:", "C37.R4"),
+    Twin("profiles of the deleted environment stay", _C, '            conn.execute("DELETE FROM profiles WHERE api_url = ?", (api_url,))\n', "", "C37.R4"),
+    Twin("benign: reversed comparison", _C, "            if row and row[0] == api_url:", "            if row is not None and api_url == row[0]:", None),
+    Twin("benign: explicit None test on lookup", _E, "        if not env:\n            raise ValueError(", "        if env is None:\n            raise ValueError(", None),
+]
